@@ -356,6 +356,18 @@ register(
 )
 
 
+register(
+    "C16",
+    [vh_stage("c16", 16, 16, death_is_violation=True, case_limit_s=30)],
+    "sessions of the Repl object configured as the repl binary configures it: the definitions (defun, defun-inline, defconstant, defmacro) of a generated program entered one per line, macros and constants first, functions in generated or shuffled order; then "
+    "(A) closed expressions: the program's main expression with its parameters bound to quoted generated argument values, once by a let around it and once by a call of an inline wrapper function (3, thorough 5, argument trees each); a quoted-constant answer must equal what the program (mod PARAMS definitions expression), "
+    "compiled by compile_file with the REPL's own options, returns under clvmr whenever that returns a value; (B) the open expression with the parameters as free variables: a constant answer is compared the same way for every argument tree, a residual answer is compiled in the parameters' scope and must return what the original returns "
+    "for every generated argument tree on which the original returns a value. Evaluator errors (depth limit) are not judged, panics are. Distinct non-trivial = distinct (definitions, expression) with >= 1 comparison and none failing",
+    min_nontrivial=100,
+    assumptions=["programs with defconst (not a REPL definition form) or closure-typed parameters are skipped", "the comparison program is compiled without a dialect sigil, like the REPL's own frontend"],
+)
+
+
 def _c12_stage(ctx):
     import c12
 
